@@ -4706,7 +4706,7 @@ let sstep cfg s = function
 (** val client_MinRenewSeconds : z **)
 
 let client_MinRenewSeconds =
-  Zpos (XO (XI (XO XH)))
+  Zpos (XO (XO (XI (XO XH))))
 
 (** val client_RetryDelaySeconds : z **)
 
@@ -4716,7 +4716,7 @@ let client_RetryDelaySeconds =
 (** val renew_threshold : z **)
 
 let renew_threshold =
-  Zpos (XO (XO (XI (XI (XI XH)))))
+  Zpos (XO (XI (XI (XI XH))))
 
 (** val renew_subtract : z **)
 
